@@ -7,7 +7,7 @@ from ..engine import Finding
 ID = 'C18'
 TITLE = 'decorators are transparent: same results, same signature, no double wrapping'
 LEAN_FILES = ['Basic', 'Bind', 'Cache', 'Wrap', 'WrapHist', 'Try', 'BindDriver', 'Cmp', 'BindLemmas', 'CacheLemmas', 'CacheKeyLemmas', 'WrapLemmas', 'WrapHistLemmas', 'WrapHistSharp', 'ResDec', 'C18']
-RULE = ('distinct protocol lines on which the implementation returned a value: a (signature, call) pair bound / called / '
+RULE = ('distinct protocol lines (inside the domain of the model) on which the implementation returned a value: a (signature, call) pair bound / called / '
         'round-tripped, a (signature, decorator stack, call) triple, a construction sequence of wrappers, or a cache history '
         '(on a cached function or through a decorator stack) with at least two calls; calls without any argument on a parameterless function are not counted')
 TRUSTED = ['correspondence harness (pv.engine, pv.proto) and generators of pv.props.c18',
@@ -17,7 +17,8 @@ ASSUMPTIONS = ['CPython call protocol = the reference binder bindRef of the mode
                'functions are built by exec from the signature; parameter names a,b,c,d, *args, **kw',
                'wrapper equality is compared on class, parameters and wrapped function recursively, ignoring the memo field function_fullargspec',
                'cache keys: arguments are ints/floats/bools/strings/None, lists/tuples/dicts of them, sets of ints and int ndarrays (written as ~set:/~arr: strings on the wire); "the same combination" = python == of (args, kwargs) (1 == 1.0 == True, keyword order irrelevant, [1] != (1,), {"a":1} != (("a",1),)); NaN arguments are not generated (nan != nan: every call is a new combination)',
-               'object identity is not modelled: the constructor edits inner wrapper objects of its operand in place; only the returned object is compared']
+               'several objects alive at once (stackhist3): a constructor returns a NEW chain and leaves its operand as it is; the dict of a cache layer exists from the layer\'s first call on and is shared with every copy made afterwards (model of the repaired constructor, P7)',
+               'the stack model covers loops on arguments that are not a list / tuple / dict of one of ITS looped types (inDomain); lines outside are declined by the driver (bad-op) and only the verdict is compared']
 EXHAUSTIVE = {'quick': False, 'thorough': False}
 EXTRA = {}
 
@@ -946,7 +947,7 @@ def laws(rng, tier, ctx):
         return repr(v)
 
     def i2f(v):
-        if isinstance(v, np.ndarray) and v.dtype.kind == 'i':
+        if isinstance(v, np.ndarray) and v.dtype in (np.dtype(np.int16), np.dtype(np.int32), np.dtype(np.int64)):       # what the docstring of K6 covers: int8 / uint arrays stay as they are
             return v.astype(float)
         if isinstance(v, dict):
             return {k: i2f(x) for k, x in v.items()}
@@ -954,7 +955,8 @@ def laws(rng, tier, ctx):
             return type(v)(*[i2f(x) for x in v]) if hasattr(v, '_fields') else type(v)([i2f(x) for x in v])
         return v
     specials = [lambda: np.array([1, 2]), lambda: np.array([1.5, 2.5]), lambda: [np.array([1, 2]), 3], lambda: P2(1, 2), lambda: P2(np.array([3]), 'x'),
-                lambda: {'k': np.array([1, 2])}, lambda: [1, [2, 3]], lambda: {'p': 1}]
+                lambda: {'k': np.array([1, 2])}, lambda: [1, [2, 3]], lambda: {'p': 1}, lambda: np.array([1, 2], dtype=np.int8), lambda: np.array([1, 2], dtype=np.uint16),
+                lambda: np.array([1, 2], dtype=np.int32)]
     for sig, args, kw in rng.sample(allcalls, 150 if tier == 'quick' else len(allcalls)):
         if not args and not kw:
             continue
@@ -984,7 +986,10 @@ def laws(rng, tier, ctx):
             got = show(res_val(lambda: g(*a, **k)))
             if got != direct:
                 a, k = build()
-                conv = show(res_val(lambda: f(*i2f(a), **i2f(k))))
+                # K6 exactly: the int arrays among the positional arguments and among the keywords NOT named in `exc` of the stack's
+                # pd2np (the constructor keeps one, with the parameters of the outermost application) are converted, nothing else
+                exc = ([p.get('exc') for c, p in ds if c == 'pd2np'] or [[]])[-1]
+                conv = show(res_val(lambda: f(*i2f(a), **{n: (x if n in exc else i2f(x)) for n, x in k.items()})))
                 k6 = any(c == 'pd2np' for c, _ in ds) and got == conv
                 yield Finding('violation', dict(tag='law-pd2np-int-array' if k6 else 'law-transparent-containers', lines=[],
                                                 values=[sig_enc(sig), decos_enc(ds), show(a), show(k)]),
